@@ -236,6 +236,9 @@ func objectItemPrefixBasedEditRange(remainingRange hcl.Range, fileBytes []byte, 
 		return r == '\n' || r == '}'
 	})
 	// avoid editing over whitespace
+	if roughEndByteOffset < 0 {
+		roughEndByteOffset = len(remainingBytes)
+	}
 	trimmedRightBytes := bytes.TrimRightFunc(remainingBytes[:roughEndByteOffset], func(r rune) bool {
 		return unicode.IsSpace(r)
 	})
